@@ -10,6 +10,7 @@ int16 entries, every assignment `smap` of the AP channels to shank numbers, ever
 hypothesis, discharged by `scale_unscale_roundtrip`).
 -/
 import IblVerif.Lemmas.SplitCompose
+import IblVerif.Lemmas.SplitStepsC03
 import IblVerif.Analysis.ScaleRoundtrip
 import IblVerif.Generated.Constants
 
@@ -199,5 +200,88 @@ theorem reconstruct_meta_id (conv : Nat → Int → Int) (M : Mat) (ns w : Nat) 
 example : ∃ m : Meta, m.get "acqApLfSy" = some (.ints ((((385 : Nat) : Int) - 1) :: [0, 1])) ∧
     m.get "nSavedChans" = some (.int (385 : Nat)) ∧ m.get "NP2.4_shank" = none :=
   ⟨[("acqApLfSy", .ints [384, 0, 1]), ("nSavedChans", .int 385)], by decide, by decide, by decide⟩
+
+/-! ### round h: the loop as the source orders it, the folder set-up, the text of the channel-subset string -/
+
+/-- **The window loop, step by step, appends every sample exactly once and in order.**  `apSteps` is the AP half of
+`_process_NP24` as the source orders it (`Tie.C03.p24_windows_eq`: per window read AP columns and sync columns of the same
+rows, `_ind2save` with ratio 1, append; close; metadata); the rows its `keep` steps retain, window by window at the window's
+own number, are `0 … ns − 1` — for every length, every window above the overlap, every column split. -/
+theorem ap_steps_write_every_row (ns w napch isync : Nat) (hw : OV < w) :
+    apAppended w TAPER (nwin ns w OV) 0 (apSteps ns w OV napch isync) = List.range ns := by
+  rw [apSteps_rows]
+  exact kept_ranges_partition ns w hw
+
+example : apSteps 600 588 576 384 384 =
+    [.wg 600 588 576, .readAp 0 588 384, .readSync 0 588 384, .keep 1, .append,
+     .readAp 12 600 384, .readSync 12 600 384, .keep 1, .append, .close, .writeMeta] := by
+  simp [apSteps, apWindow, firstlast, firstlastAux]
+
+/-- **Folder set-up.**  `_prepare_files_NP24` makes one entry per shank number that occurs, in increasing order, registered
+under its own number, with that shank's channel list; the folder letters `chr(97 + sh)` are strictly increasing, so the
+reconstructor's `sorted(folders)` meets the shanks in the same order. -/
+theorem prepare_folders_spec (smap : List Nat) (nc nsync : Nat) :
+    (prepAll smap nc nsync).map (·.key) = shankIds smap ∧
+    (prepAll smap nc nsync).map (·.chns) = (shankIds smap).map (fun sh => shankChans smap sh nc nsync) ∧
+    (prepAll smap nc nsync).map (·.letter) = (shankIds smap).map (97 + ·) ∧
+    ((prepAll smap nc nsync).map (·.letter)).Pairwise (· < ·) := by
+  refine ⟨by simp [prepAll, prepShank, Function.comp_def], by simp [prepAll, prepShank, Function.comp_def],
+    by simp [prepAll, prepShank, Function.comp_def], ?_⟩
+  have h : (prepAll smap nc nsync).map (·.letter) = (shankIds smap).map (97 + ·) := by
+    simp [prepAll, prepShank, Function.comp_def]
+  rw [h, List.pairwise_map]
+  exact (shankIds_sorted smap).imp (by intro a b hab; omega)
+
+example : (prepAll [1, 3, 1] 4 1).map (fun p => (p.key, p.letter, p.chns)) = [(1, 98, [0, 2, 3]), (3, 100, [1, 3])] := by
+  decide
+
+/-- **The channel-subset string of two or more channels always contains a colon** (its first token is `a:b` because
+`chn_grps[0] = 0 < len(chns) − 1`), so the metadata parser keeps it a string; and it still parses back to the list. -/
+theorem subset_string_has_colon (chns : List Nat) (h : 2 ≤ chns.length) :
+    ∃ t, subsetToks chns = .ok t ∧ ':' ∈ (renderToks t).toList ∧ parseToks t = chns := by
+  match chns, h with
+  | a :: b :: rest, _ =>
+    obtain ⟨e, ts, he⟩ := subsetToks_head_range a b rest
+    obtain ⟨t, ht, hp⟩ := parse_subsetToks (a :: b :: rest) (by simp)
+    rw [he] at ht
+    cases ht
+    exact ⟨_, he, render_range_has_colon a e ts, hp⟩
+
+example : (2 : Nat) ≤ ([5, 384] : List Nat).length := by decide
+
+/-- **Every shank file's `snsSaveChanSubset_orig` contains a colon**: a shank number that occurs has at least one channel,
+and with at least one sync column the written list has two or more members — single-channel shanks included. -/
+theorem shank_subset_has_colon (smap : List Nat) (sh nc nsync : Nat) (hsh : sh ∈ smap) (hs : 1 ≤ nsync) :
+    ∃ t, subsetToks (shankChans smap sh nc nsync) = .ok t ∧ ':' ∈ (renderToks t).toList ∧
+      parseToks t = shankChans smap sh nc nsync := by
+  apply subset_string_has_colon
+  obtain ⟨i, hi⟩ := List.mem_iff_getElem?.mp hsh
+  have hlt : i < smap.length := by
+    rcases Nat.lt_or_ge i smap.length with h | h
+    · exact h
+    · rw [List.getElem?_eq_none h] at hi; cases hi
+  have hm : i ∈ apChans smap sh := (mem_apChans smap sh i).mpr ⟨hlt, hi⟩
+  have h1 : 1 ≤ (apChans smap sh).length := List.length_pos_of_mem hm
+  simp only [shankChans, syncIdx, List.length_append, List.length_range']
+  omega
+
+example : (1 : Nat) ∈ ([0, 1, 0] : List Nat) ∧ subsetToks (shankChans [0, 1, 0] 1 4 1) = .ok [Grp.range 1 1, Grp.single 3] := by
+  decide
+
+/-- **The exact class without a colon: a single channel** (only reachable for a recording saved without its sync word and
+a shank holding one channel — outside the 384 + 1 layout the converter is used on): the text is the bare number, which the
+metadata parser re-reads as a number. -/
+theorem subset_single_bare_counterexample :
+    (∀ a, subsetToks [a] = .ok [Grp.single a]) ∧ renderToks [Grp.single 5] = "5" ∧
+      ':' ∉ (renderToks [Grp.single 5]).toList := by
+  refine ⟨subsetToks_single, by decide, by decide⟩
+
+/-- round trip on the shapes named in the property's anchors: single element, all isolated, ending at 383 + sync -/
+example : subsetToks [7] = .ok [Grp.single 7] ∧ parseToks [Grp.single 7] = [7] := by decide
+example : subsetToks [1, 3, 5, 384] = .ok [Grp.range 1 1, Grp.range 3 3, Grp.range 5 5, Grp.single 384] := by decide
+example : subsetToks [382, 383, 384] = .ok [Grp.range 382 384] ∧ parseToks [Grp.range 382 384] = [382, 383, 384] := by
+  decide
+example : renderToks [Grp.range 0 1, Grp.range 5 5, Grp.single 384] = "0:1,5:5,384" := by decide
+
 
 end IblVerif.C03
